@@ -11,6 +11,7 @@ import numpy as np
 
 from mc import alphabets as A
 from mc.harness import Result, Sub
+from mc.ref import c20x as X
 from mc.ref import neigh as NB
 from mc.ref.base import mk_snap
 
@@ -37,10 +38,25 @@ ASSUMPTIONS = [
     "noise-dominated: only 'no exception', 'requested frame' (bit-for-bit) and 'file equals return' are demanded of it; zero row sums "
     "are demanded of the raw matrix only",
     "np.save appends '.npy' to the output file name",
+    "C20.scale.*: these slices enumerate SIZES (one deterministic generic point pattern per size, box and frame), not placements.  General "
+    "position is evaluated PER PARTICLE with the same thresholds: a cell is compared with the scipy tessellation (neighbour multiset, "
+    "weights, symmetry, weights equal both ways) only if none of its Voronoi vertices is an end point of an edge shorter than 1e-4 (2D) / "
+    "3e-3 (3D) or a corner of a face smaller than 1e-4; every cell is compared for id order, cn consistency and volume; at least 90 % "
+    "(2D) / 50 % (3D) of the cells of every frame must be fully comparable, otherwise the case counts as screened.  Numerical general "
+    "position (interval oracle): the scipy tessellation is recomputed with every coordinate moved by +- half a single-precision ulp of "
+    "the longest box edge in three fixed sign patterns; a face size is compared at 2e-5 + 2 x (largest change of that face under these "
+    "perturbations) and a cell whose neighbour multiset changes under them is treated like a cell touched by a near-degenerate vertex.  "
+    "Witness for the need: 130 particles, box 11.25 x 13.5 with bounds [0,11.25]x[-12.375,1.125] (the un-centred box whose bounds sum to "
+    "zero, so freud wraps the coordinates itself in single precision): next to a Delaunay triangle of condition number ~100 two adjacent "
+    "edges of one cell are off by +-2.4e-5 while ordinary faces agree to 5e-7",
+    "C20.scale.volmatrix: no general-position screen (cell volumes do not depend on how a near-degenerate vertex is resolved); the "
+    "finite-difference oracle is evaluated on the columns of a subset of displaced particles and the tolerance is 5e-5 * max(1, |A_ij|) "
+    "(small cells give entries of order 10; observed relative deviation <= 4e-6); outputfile=None means 'do not save' (documented)",
 ]
 
 MINFACE = 1e-4
 MINEDGE3D = 3e-3
+MIN_CLEAN = {2: 0.9, 3: 0.5}   # scale slice: smallest fraction of particles whose cell is in general position
 TOL_W = 2e-5
 TOL_V = 1e-5
 TOL_A = 5e-5
@@ -146,6 +162,80 @@ def gen_volmatrix(tier, seed):
                    "save": False, "oracle": True, "deltar": 0.02}
 
 
+# ---------------------------------------------------------------------------------------------- scale slice (generators)
+# Sizes straddling 64 / 128 / 256 (ids with 2-3 digits).  These generators enumerate SIZES; there is one fixed deterministic point
+# pattern per size, box and frame.  Boxes have unequal edges (each axis is the longest one in some box), the box (shape at EQUAL volume,
+# then volume) and the origin change from frame to frame in the F = 3 files.
+SC_N = {2: {"quick": [65, 130, 257], "thorough": [64, 65, 130, 257]}, 3: {"quick": [64, 130], "thorough": [64, 130]}}
+VM_N = {2: [10, 33, 65], 3: [10, 22]}
+
+
+def sc_boxes(d, n):
+    if d == 2:
+        s = 1.0 if n <= 65 else (1.5 if n <= 130 else 2.0)
+        base = [[6.0, 9.0], [9.0, 6.0], [7.5, 9.0]]
+    else:
+        s = 1.0 if n <= 64 else 1.25
+        base = [[6.0, 9.0, 7.5], [7.5, 6.0, 9.0], [9.0, 7.5, 6.0]]
+    return [[x * s for x in L] for L in base]
+
+
+def vm_boxes(d, n):
+    if d == 2:
+        s = 1.0 if n <= 10 else (1.5 if n <= 33 else 2.0)
+        base = [[4.0, 6.0], [6.0, 4.0], [5.0, 6.0]]
+    else:
+        s = 1.0
+        base = [[4.0, 5.0, 6.0], [5.0, 4.0, 6.0], [4.0, 6.0, 5.0]]
+    return [[x * s for x in L] for L in base]
+
+
+def varying_frames(seed, n, B, k, tag):
+    fr = []
+    for f in range(3):
+        L = B[(f + k) % 3]
+        fr.append(generic_frame(seed, n, L, origin(ORIGINS[(f + k + 1) % 4], L), f"{tag}_{k}{f}"))
+    return fr
+
+
+def gen_scale_files(tier, seed):
+    for d in (2, 3):
+        for n in SC_N[d][tier]:
+            B = sc_boxes(d, n)
+            for oi, on in enumerate(ORIGINS):
+                L = B[oi % 3]
+                yield {"scale": True, "d": d, "origin": on, "frames": [generic_frame(seed, n, L, origin(on, L), f"C20S{d}_{n}_{oi}")]}
+            for k in (0, 1):
+                yield {"scale": True, "d": d, "origin": "varying", "frames": varying_frames(seed, n, B, k, f"C20S{d}_{n}v")}
+    # many frames in one file: 12 particles (2D), 65 frames, box and origin changing with every frame
+    B = sc_boxes(2, 12)
+    fr = []
+    for f in range(65):
+        L = B[0] if f == 64 else B[f % 3]   # the last frame returns to the box of the first one (cyclic compression)
+        fr.append(generic_frame(seed, 12, L, origin(ORIGINS[f % 4], L), f"C20S2_many{f}"))
+    yield {"scale": True, "d": 2, "origin": "varying", "frames": fr}
+
+
+def gen_scale_volmatrix(tier, seed):
+    for d in (2, 3):
+        for si, n in enumerate(VM_N[d]):
+            B = vm_boxes(d, n)
+            if tier == "quick":
+                cols = sorted({0, n // 2, n - 1})
+            else:
+                cols = list(range(n)) if n <= (33 if d == 2 else 10) else sorted({(k * (n - 1)) // 7 for k in range(8)})
+            base = {"scale": True, "d": d, "save": False, "oracle": False}
+            on = ORIGINS[si % 4]
+            for bi in ((0,) if tier == "quick" else (0, 1, 2)):
+                L = B[bi]
+                yield dict(base, origin=on, frames=[generic_frame(seed, n, L, origin(on, L), f"C20V{d}_{n}_{bi}")], nconfig=0, transform=False,
+                           oracle_cols=cols, deltar=0.01)
+            fr = varying_frames(seed, n, B, si % 2, f"C20V{d}_{n}v")
+            for k in ((1 + si % 2,) if tier == "quick" else (0, 1, 2)):
+                yield dict(base, origin="varying", frames=fr, nconfig=k, transform=False, oracle_cols=cols, deltar=0.02)
+            yield dict(base, origin="varying", frames=fr, nconfig=1, transform=True, save=True, oracle_cols=[], deltar=0.01)
+
+
 # ---------------------------------------------------------------------------------------------- helpers
 def build(case):
     from PyMatterSim.reader.reader_utils import Snapshots
@@ -158,13 +248,24 @@ def build(case):
 
 
 def tessellate(case):
-    """scipy oracle for every frame + the general-position screen."""
+    """scipy oracle for every frame + the general-position screen (whole configuration).  Per frame (nb, vols, clean[i])."""
     out = []
     for fr in case["frames"]:
         nb, vols, ok, min_edge = NB.periodic_voronoi(np.array(fr["pos"]), fr["L"])
         if not ok or NB.voronoi_min_face(nb) < MINFACE or min_edge < MINEDGE3D:
             return None
-        out.append((nb, vols))
+        out.append((nb, vols, [True] * len(vols)))
+    return out
+
+
+def tessellate_pp(case):
+    """scale slice: the same oracle with the general-position screen evaluated per particle (mc/ref/c20x.py)"""
+    out = []
+    for fr in case["frames"]:
+        nb, vols, ok, clean = X.periodic_voronoi_pp(np.array(fr["pos"]), fr["L"], MINFACE, MINEDGE3D, band=2.0)
+        if not ok or clean.mean() < MIN_CLEAN[len(fr["L"])]:
+            return None
+        out.append((nb, vols, clean.tolist()))
     return out
 
 
@@ -183,12 +284,15 @@ def run_files(case):
     F = len(case["frames"])
     n = len(case["frames"][0]["pos"])
     sig = {"d": d, "origin": case["origin"], "F": F}
-    ref = tessellate(case)
+    if case.get("scale"):
+        sig["scale"] = True
+    ref = tessellate_pp(case) if case.get("scale") else tessellate(case)
     if ref is None:
         return R.screen()
     snaps = build(case)
     before = [s.positions.copy() for s in snaps.snapshots]
     out = "c20out"
+    compared = 0
     cal_neighbors(snaps, outputfile=out)
     bond = out + (".edgelength.dat" if d == 2 else ".facearea.dat")
     names = {"neighbor": out + ".neighbor.dat", "bond": bond, "overall": out + ".overall.dat"}
@@ -212,7 +316,7 @@ def run_files(case):
         return R
     outcome = []
     for t in range(F):
-        nb_ref, vol_ref = ref[t]
+        nb_ref, vol_ref, clean = ref[t]
         s2 = dict(sig)
         # -- every particle once per frame, in id order, cn = number of listed values
         ok = True
@@ -251,6 +355,8 @@ def run_files(case):
         # -- symmetric as a multiset, weights positive and equal both ways
         for i in range(n):
             for j in sorted(set(nl[i])):
+                if not (clean[i] and clean[j]):
+                    continue   # (scale slice) a near-degenerate vertex touches one of the two cells
                 wij = sorted(w for k, w in zip(nl[i], wl[i]) if k == j)
                 wji = sorted(w for k, w in zip(nl[j], wl[j]) if k == i)
                 if len(wij) != len(wji):
@@ -269,12 +375,15 @@ def run_files(case):
         for i in range(n):
             got = sorted(zip(nl[i], wl[i]))
             exp = sorted(nb_ref[i])
-            if [g[0] for g in got] != [e[0] for e in exp]:
+            if not clean[i]:
+                pass
+            elif [g[0] for g in got] != [e[0] for e in exp]:
                 R.fail(f"frame {t}: particle {i + 1}: neighbours differ from the scipy tessellation", sig=dict(s2, clause="oracle_neighbours"),
                        sub="C20.oracle", exp=[e[0] + 1 for e in exp], obs=[g[0] + 1 for g in got])
-            elif any(abs(g[1] - e[1]) > TOL_W for g, e in zip(got, exp)):
+            elif any(abs(g[1] - e[1]) > TOL_W + (e[2] if len(e) > 2 else 0.0) for g, e in zip(got, exp)):
                 R.fail(f"frame {t}: particle {i + 1}: {'edge lengths' if d == 2 else 'face areas'} differ from the scipy tessellation",
                        sig=dict(s2, clause="oracle_weights"), sub="C20.oracle", exp=exp, obs=got)
+            compared += bool(clean[i])
             if abs(vol[i] - vol_ref[i]) > TOL_V:
                 R.fail(f"frame {t}: particle {i + 1}: cell size {vol[i]} differs from the scipy tessellation {vol_ref[i]}",
                        sig=dict(s2, clause="oracle_volumes"), sub="C20.oracle")
@@ -300,7 +409,7 @@ def run_files(case):
     for p in names.values():
         os.remove(p)
     R.outcome(outcome, nd=5)
-    R.nontrivial = n >= 3 or F > 1
+    R.nontrivial = (n >= 3 or F > 1) and compared > 0
     R.elem = n * F
     return R
 
@@ -317,11 +426,13 @@ def run_volmatrix(case):
     n = len(case["frames"][0]["pos"])
     tr = case["transform"]
     sig = {"d": d, "origin": case["origin"], "F": F, "nconfig": "0" if k == 0 else ">0", "transform": tr, "save": case["save"]}
-    if tessellate(case) is None:
+    if case.get("scale"):
+        sig["scale"] = True   # no general-position screen: cell volumes do not depend on how a near-degenerate vertex is resolved
+    elif tessellate(case) is None:
         return R.screen()
     snaps = build(case)
     before = [s.positions.copy() for s in snaps.snapshots]
-    out = "c20vm" if case["save"] else ""
+    out = "c20vm" if case["save"] else (None if case.get("scale") else "")
     M = VolumeMatrix(snaps, ndim=d, nconfig=k, deltar=case["deltar"], transform_matrix=tr, outputfile=out)
     M = np.asarray(M)
     shape = (n * d, n * d) if tr else (n, n * d)
@@ -349,6 +460,16 @@ def run_volmatrix(case):
             ij = np.unravel_index(int(np.argmax(np.abs(M - Aref))), M.shape)
             R.fail(f"entry {list(map(int, ij))}: {M[ij]!r}, finite-difference reference on frame {k}: {Aref[ij]!r}", sig=dict(sig, clause="oracle"),
                    sub="C20.volmatrix.oracle", exp=Aref, obs=M)
+    if case.get("oracle_cols") and not tr:
+        # scale slice: the same definition on a subset of displaced particles; tolerance relative for entries > 1 (small cells)
+        fr = case["frames"][k]
+        cols, Aref = X.ref_volume_columns(np.array(fr["pos"]), fr["L"], d, case["deltar"], case["oracle_cols"])
+        dev = np.abs(M[:, cols] - Aref) / np.maximum(1.0, np.abs(Aref))
+        dev[np.isnan(Aref)] = 0.0
+        if dev.max() > TOL_A:
+            i, c = np.unravel_index(int(np.argmax(dev)), dev.shape)
+            R.fail(f"entry {[int(i), int(cols[c])]}: {M[i, cols[c]]!r}, finite-difference reference on frame {k}: {Aref[i, c]!r} (N={n})",
+                   sig=dict(sig, clause="oracle"), sub="C20.volmatrix.oracle")
     # -- saving works in both modes: the file holds the returned matrix
     if case["save"]:
         path = out + ".npy"
@@ -383,4 +504,19 @@ def subs(tier, seed):
             "outputfile on/off x origins; scipy finite-difference oracle on the raw matrix for small N; non-trivial = N >= 3"
             % ((5, 5, 4) if q else (6, 6, 5)),
             bounds={"F": [1, 3], "nconfig": "0..F-1", "deltar": [0.01, 0.02]}),
+        Sub("C20.scale.files", gen_scale_files, run_files,
+            rule="SCALE slice - enumerates SIZES with one fixed deterministic generic point pattern per size, box and frame: cal_neighbors on "
+            "N in %s (2D) / %s (3D) particles; boxes with unequal edges (6x9, 9x6, 7.5x9 / 6x9x7.5 and its rotations, scaled with N); the four "
+            "origins; one 65-frame file of 12 particles (2D); F=1 and F=3 files whose box (first the shape at EQUAL volume, then the volume) and origin change per frame; every "
+            "invariant of C20.files plus the scipy periodic-Voronoi oracle, with the general-position screen evaluated PER PARTICLE (cells "
+            "touched by a near-degenerate vertex are compared for grammar, cn and volume only; >= 90 %% (2D) / 50 %% (3D) of the cells of "
+            "every frame must be comparable)" % (SC_N[2][tier], SC_N[3][tier]),
+            bounds={"N2d": SC_N[2][tier], "N3d": SC_N[3][tier], "F": [1, 3]}),
+        Sub("C20.scale.volmatrix", gen_scale_volmatrix, run_volmatrix,
+            rule="SCALE slice - enumerates SIZES: VolumeMatrix on N in %s (2D) / %s (3D) generic particles; boxes longer in y or z than in x "
+            "(4x6, 6x4, 5x6 scaled with N / 4x5x6, 5x4x6, 4x6x5); F=1 and F=3 with box and origin changing per frame, requested frame %s; "
+            "rows sum to zero, equals the one-frame computation bit for bit, finite-difference scipy reference on the columns of %s; "
+            "transformed matrix + saving on the F=3 file" % (VM_N[2], VM_N[3], "1 or 2" if q else "0, 1, 2",
+                                                             "3 displaced particles (first, middle, last)" if q else "all (N <= 33 / 10) or 8 displaced particles"),
+            bounds={"N2d": VM_N[2], "N3d": VM_N[3], "F": [1, 3], "deltar": [0.01, 0.02]}),
     ]
